@@ -773,6 +773,12 @@ struct Spec
                 int nE = 0;
                 for (int k = 1; k <= U; k++)
                     nE += m.e[k].inE;
+                // a key the model holds live but that is not found at this very step is a retention / TTL
+                // deviation reported above (C03/C05); physically it may well be an expired entry that is
+                // still resident, so it must not also show up as a size() complaint
+                for (int k = 1; k <= U; k++)
+                    if (expect[k] == 1 && !sc.e[k].present)
+                        nE++;
                 if (ob.size < nscan || ob.size > nscan + nE)
                 {
                     snprintf(
